@@ -748,7 +748,8 @@ func checkOneTime(c *km.Ctx, s *km.Sem, upd *ssa.Function, isAuthUser func(ssa.V
 			return false
 		}}
 		notCached := km.Prim{Name: "not from cache", Direct: func(f km.Fact) bool {
-			return f.Op == token.ILLEGAL && !f.Pol && km.Unwrap(f.X) == ssa.Value(fn.Params[2])
+			cp := km.ParamAt(fn, 2)
+			return cp != nil && f.Op == token.ILLEGAL && !f.Pol && km.Unwrap(f.X) == ssa.Value(cp)
 		}}
 		for _, rc := range s.RetCases(fn) {
 			if km.IsNilConst(rc.Results[0]) {
